@@ -120,6 +120,8 @@ class Ctx:
             return {'fset': [self.enc(v) for v in x]}
         if ty is collections.deque:
             return {'deque': [self.enc(v) for v in x]}
+        if ty in (types.MappingProxyType, collections.UserDict):
+            return {'map': [ty.__name__, [[self.enc(k), self.enc(v)] for k, v in x.items()]]}
         if ty in (collections.Counter, collections.defaultdict, collections.OrderedDict):
             kind = ty.__name__
             if ty is collections.defaultdict and x.default_factory is int:
@@ -193,6 +195,7 @@ class Ctx:
             kind, kvs = v
             d = {self.dec(a): self.dec(b) for a, b in kvs}
             return {'Counter': collections.Counter, 'OrderedDict': collections.OrderedDict,
+                    'mappingproxy': types.MappingProxyType, 'UserDict': collections.UserDict,
                     'defaultdict': lambda d: collections.defaultdict(None, d),
                     'defaultdict:int': lambda d: collections.defaultdict(int, d)}[kind](d)
         if k == 'op':
